@@ -242,7 +242,7 @@ def nontrivial(case, got):
 
 
 def run(ctx):
-    n = ctx.scale(18, 200)
+    n = ctx.scale(30, 200)
     cases = [gen_case(ctx.rng, force_sym=s) for s in ctx.rng.shuffle([s for s in ALL27 if any(s)])[: n // 2]]
     while len(cases) < n:
         cases.append(gen_case(ctx.rng))
